@@ -597,7 +597,90 @@ func c06Learning(c *Ctx) {
 		}
 		c.check(good, rule, "ForEachViaParam/every-entry", w.pos(fp.Pos()), "every entry 0..Size-1 of every Via header is handed to the handler", "ForEachViaParam does not hand every entry (index 0 up to Size()-1) of every Via header to the handler")
 	}
+	c06LearnTable(c)
 	// the header walk itself (shared with C17.4)
 	c17Layout(c)
 	c.floor(rule, 6)
+}
+
+// c06LearnTable: AddRoute leaves route[host] = the given transport, skipping the write only when the stored transport
+// is the same listener (same protocol, address and port, or the same object).
+func c06LearnTable(c *Ctx) {
+	w := c.w
+	rule := "learning"
+	f := c.fn(rule, "(*SelfLearnRoute).AddRoute")
+	if f == nil {
+		return
+	}
+	var upd *ssa.MapUpdate
+	nUpd := 0
+	eachInstr(f, func(in ssa.Instruction) {
+		if mu, ok := in.(*ssa.MapUpdate); ok {
+			if _, isR := isLoadOf(mu.Map, "SelfLearnRoute.route"); isR {
+				upd = mu
+				nUpd++
+			}
+		}
+	})
+	if upd == nil || nUpd != 1 {
+		c.bad(rule, "AddRoute/update", w.pos(f.Pos()), fmt.Sprintf("AddRoute must store the transport under the host exactly once (found %d stores into the table)", nUpd))
+		return
+	}
+	c.check(isParam(f, upd.Key, 1) && isParam(f, upd.Value, 2), rule, "AddRoute/update", w.ipos(upd), "route[host] = transport", "AddRoute does not store its transport argument under its host argument")
+	// the only condition under which the store is skipped
+	same := func(a Atom) bool {
+		switch a.Kind {
+		case "bool":
+			cc := w.resultOfCallTo(a.X, "(*SelfLearnRoute).isSameTransport", 0)
+			if cc == nil {
+				return false
+			}
+			return (isParam(f, callArg(cc, 0), 2) || isParam(f, callArg(cc, 1), 2))
+		case "eq":
+			return isParam(f, a.X, 2) || isParam(f, a.Y, 2)
+		}
+		return false
+	}
+	keep := w.under(assumeAtom(same, false))
+	mn, mx, inf := countSites(entryPt(f), keep, isInstr(upd))
+	c.check(mn == 1 && mx == 1 && !inf, rule, "AddRoute/overwrites-unless-same", w.ipos(upd), "a different transport always replaces the stored one",
+		fmt.Sprintf("when the stored transport is not the same listener the table is updated min=%d max=%d times: a host that moved to another listener keeps its stale route, and the Via/Record-Route inserted for it name the wrong listener", mn, mx))
+	if st := c.fn(rule, "(*SelfLearnRoute).isSameTransport"); st != nil {
+		acc := func(name string) func(Atom) bool {
+			return func(a Atom) bool {
+				if a.Kind != "eq" {
+					return false
+				}
+				c1, _ := callOfResult(a.X)
+				c2, _ := callOfResult(a.Y)
+				if c1 == nil || c2 == nil || w.calleeName(c1) != name || w.calleeName(c2) != name {
+					return false
+				}
+				r1, r2 := callArg(c1, -1), callArg(c2, -1)
+				return (isParam(st, r1, 1) && isParam(st, r2, 2)) || (isParam(st, r1, 2) && isParam(st, r2, 1))
+			}
+		}
+		ident := func(a Atom) bool {
+			return a.Kind == "eq" && ((isParam(st, a.X, 1) && isParam(st, a.Y, 2)) || (isParam(st, a.X, 2) && isParam(st, a.Y, 1)))
+		}
+		good, n := true, 0
+		for _, r := range returnsUnder(st, nil) {
+			for _, bc := range boolCases(r, 0) {
+				if b, isB := constBool(bc.Leaf); isB && !b {
+					continue
+				}
+				n++
+				if w.holdsWhenTrue(st, bc, ident, true) {
+					continue
+				}
+				for _, name := range []string{"ServerTransport.GetProtocol", "ServerTransport.GetAddress", "ServerTransport.GetPort"} {
+					if !w.holdsWhenTrue(st, bc, acc(name), true) {
+						good = false
+						c.info(rule, "isSameTransport/missing", w.ipos(r), "true is returned without comparing "+name)
+					}
+				}
+			}
+		}
+		c.check(good && n > 0, rule, "isSameTransport/compares-protocol-address-port", w.pos(st.Pos()), "same listener = same protocol, address and port", "isSameTransport reports two transports as the same without comparing protocol, address and port of both: a host that moved to a listener differing only in the part not compared keeps its stale route")
+	}
 }
